@@ -141,10 +141,14 @@ def encoder_sections(ctx, pid):
     from ..contracts import encoder as ce
     s = Section("encoder-quoting-contracts", "smt",
                 rule="needs_quotes, encode_string, is_symbol (PVL/ODL/PDS3/ISIS receivers) == the quoting rule of the statement; "
-                     "encode_simple_value dispatches by type in the order None, set, list, date/time, bool, number, str")
+                     "encode_simple_value dispatches by type in the order None, set, list, date/time, bool, number, str; encode_datetype "
+                     "tests datetime before date; ODLEncoder.encode_assignment writes a statement only for a name of at most 30 "
+                     "characters that is an (pointer / namespace) identifier")
     t0 = time.time()
     contracts = ce.quoting_contracts()
     verify_contracts(s, contracts, EncTheory, ["pvl.encoder"], jobs=ctx.jobs)
+    # date/time dispatch (a datetime is also a date) and ODL parameter-name refusal; own registry: other callee signatures
+    verify_contracts(s, ce.dispatch_contracts(), EncTheory, ["pvl.encoder"], jobs=ctx.jobs)
     s.assumptions += ENC_ASSUMPTIONS
     s.seconds = time.time() - t0
     r = Section("encoder-quoting-runtime-contracts", "bounded", bounded=True,
